@@ -14,6 +14,7 @@ func main() {
 		vlib.Group{Name: "dg3", Gen: genDg3},
 		vlib.Group{Name: "ug", Gen: genUg},
 		vlib.Group{Name: "unweighted", Gen: genUnweighted},
+		vlib.Group{Name: "traverse", Gen: genTraverse},
 		vlib.Group{Name: "empty-tree", Gen: genEmptyTree},
 		vlib.Group{Name: "bf-negcycle", Gen: genBFNeg},
 		vlib.Group{Name: "fw-negcycle", Gen: genFWNeg},
@@ -24,6 +25,7 @@ func main() {
 		vlib.Group{Name: "dstar", Gen: genDStar},
 		vlib.Group{Name: "dstar-heur", Gen: genDStarHeur},
 		vlib.Group{Name: "dg4neg", Gen: genDg4Neg},
+		vlib.Group{Name: "dg4-improve", Gen: genDg4Improve},
 		vlib.Group{Name: "dg4", Gen: genDg4},
 	)
 }
@@ -86,7 +88,7 @@ func genDg3(g *vlib.G) {
 	all := g.Thorough()
 	odometer(len(ps), len(alphaA)+1, func(idx int, digits []int) bool {
 		d := append([]int(nil), digits...)
-		g.Case("n=3 dir w="+digitString(d, alphaA), func(t *vlib.T) {
+		gcase(g, "n=3 dir w="+digitString(d, alphaA), func(t *vlib.T) {
 			r := newRef(specFromDigits(3, true, ps, d, alphaA))
 			runCombos(t, r, weightedKinds, idx, all)
 			mark(t, r)
@@ -111,7 +113,7 @@ func genUg(g *vlib.G) {
 		if n <= 4 {
 			odometer(len(ps), len(alpha)+1, func(idx int, digits []int) bool {
 				d := append([]int(nil), digits...)
-				g.Case(fmt.Sprintf("n=%d und w=%s", n, digitString(d, alpha)), func(t *vlib.T) {
+				gcase(g, fmt.Sprintf("n=%d und w=%s", n, digitString(d, alpha)), func(t *vlib.T) {
 					r := newRef(specFromDigits(n, false, ps, d, alpha))
 					runCombos(t, r, weightedKinds, idx, all)
 					mark(t, r)
@@ -131,6 +133,10 @@ func genUg(g *vlib.G) {
 // "lite" mode (one absent target ID, one A* heuristic per query, no ...Func
 // variants, no sink-self query). per == 6: three of the six container kinds
 // (alternating with the graph index), the ID map rotating, full checks.
+// blockStride > 1 makes blocks run only the graphs with index = 1 modulo it
+// (set by genDg4Improve around its call).
+var blockStride = 1
+
 func blocks(g *vlib.G, n int, directed bool, ps [][2]int, alpha []float64, tail, per int) {
 	radix := len(alpha) + 1
 	head := len(ps) - tail
@@ -140,14 +146,17 @@ func blocks(g *vlib.G, n int, directed bool, ps [][2]int, alpha []float64, tail,
 	}
 	odometer(head, radix, func(bidx int, hd []int) bool {
 		h := append([]int(nil), hd...)
-		g.Case(fmt.Sprintf("n=%d %s alphabet=%d combos=%d w=%s+%d", n, kind, len(alpha), per, digitString(h, alpha), tail), func(t *vlib.T) {
+		gcase(g, fmt.Sprintf("n=%d %s alphabet=%d combos=%d w=%s+%d", n, kind, len(alpha), per, digitString(h, alpha), tail), func(t *vlib.T) {
 			digits := make([]int, len(ps))
 			copy(digits, h)
 			feat := map[string]bool{}
 			odometer(tail, radix, func(tidx int, tl []int) bool {
+				gi := bidx*pow(radix, tail) + tidx
+				if blockStride > 1 && gi%blockStride != 1 {
+					return true
+				}
 				copy(digits[head:], tl)
 				r := newRef(specFromDigits(n, directed, ps, digits, alpha))
-				gi := bidx*pow(radix, tail) + tidx
 				rot := int((uint64(gi)*2654435761 + 12345) >> 7 % 18)
 				if per == 1 {
 					c := newCtx(t, r, weightedKinds[rot%6], rot/6)
@@ -192,6 +201,22 @@ func genDg4(g *vlib.G) {
 	blocks(g, 4, true, ps, alphaB, 4, 1)
 }
 
+// alphaImprove is a non-metric weight alphabet: the direct edge of weight 3 is
+// strictly worse than a two-hop route 1+1 (and ties with a three-hop route), so
+// that tentative distances are improved after a node has been queued. With
+// {1,2} (dg4) a queued distance is never improved strictly: stale priority
+// queue entries, decrease-key and re-expansion code is not exercised there.
+var alphaImprove = []float64{1, 3}
+
+// genDg4Improve: all digraphs on 4 nodes, pair in {absent,1,3}, one rotating
+// container/ID-map combination per graph, lite checks; the thorough tier runs
+// all 3^12 graphs, the quick tier the graphs with index = 1 modulo 8.
+func genDg4Improve(g *vlib.G) {
+	blockStride = vlib.Pick(g, 8, 1)
+	blocks(g, 4, true, pairs(4, true), alphaImprove, 4, 1)
+	blockStride = 1
+}
+
 // Unweighted containers (UniformCost): every digraph on 3 and 4 nodes, every
 // undirected graph on <= 4 (thorough 5) nodes.
 func genUnweighted(g *vlib.G) {
@@ -210,7 +235,7 @@ func genUnweighted(g *vlib.G) {
 				if directed {
 					kind = "dir"
 				}
-				g.Case(fmt.Sprintf("n=%d %s e=%s", n, kind, digitString(d, alphaOne)), func(t *vlib.T) {
+				gcase(g, fmt.Sprintf("n=%d %s e=%s", n, kind, digitString(d, alphaOne)), func(t *vlib.T) {
 					r := newRef(specFromDigits(n, directed, ps, d, alphaOne))
 					runCombos(t, r, unweightedKinds, idx, all)
 					mark(t, r)
